@@ -218,6 +218,8 @@ def loop_effects(body, facts, loop_blocks, next_bb):
             for s in body.succs(b):
                 if s not in loop_blocks and body.term(s)['k'] == 'unreachable' and not body.blocks[s]['stmts']:
                     continue        # the `otherwise` edge of an exhaustive enum switch: not a way out
+                if s not in loop_blocks and s not in body.postdominators():
+                    continue        # a way that ends in a panic (a failed assertion): not a way out, as everywhere in this engine
                 if s not in loop_blocks:
                     tt = body.term(b)
                     # the switch on next()'s result lives in the block after next_bb
